@@ -11,6 +11,7 @@ import (
 	"strconv"
 	"strings"
 	"sync"
+	"syscall"
 	"time"
 )
 
@@ -63,6 +64,7 @@ func NewSolver(timeoutMs int) (*Solver, error) {
 
 func (s *Solver) start() error {
 	s.cmd = exec.Command("z3", "-in")
+	s.cmd.SysProcAttr = &syscall.SysProcAttr{Pdeathsig: syscall.SIGKILL}
 	var err error
 	if s.in, err = s.cmd.StdinPipe(); err != nil {
 		return err
@@ -367,6 +369,7 @@ func (s *Solver) portfolioOnce(queryText string, want []*Term, timeoutMs int) (R
 	ch := make(chan ans, 4)
 	run := func(eng string, args ...string) {
 		cmd := exec.CommandContext(ctx, args[0], args[1:]...)
+		cmd.SysProcAttr = &syscall.SysProcAttr{Pdeathsig: syscall.SIGKILL}
 		cmd.Stdin = strings.NewReader(text)
 		out, _ := cmd.Output()
 		o := string(out)
@@ -407,7 +410,7 @@ func (s *Solver) portfolioOnce(queryText string, want []*Term, timeoutMs int) (R
 			}
 			if s.queryHasFP && s.finalQuery && !s.modelHolds(base, queryText, want, v, a.eng) {
 				s.Discarded++
-		s.ByEngine["model-refuted-by-second-solver"]++
+				s.ByEngine["model-refuted-by-second-solver"]++
 				continue
 			}
 			vals = v
@@ -468,6 +471,7 @@ func (s *Solver) modelHolds(base, queryText string, want []*Term, vals []uint64,
 	ctx, cancel := context.WithTimeout(context.Background(), 20*time.Second)
 	defer cancel()
 	cmd := exec.CommandContext(ctx, args[0], args[1:]...)
+	cmd.SysProcAttr = &syscall.SysProcAttr{Pdeathsig: syscall.SIGKILL}
 	cmd.Stdin = strings.NewReader(sb.String())
 	out, _ := cmd.Output()
 	return strings.SplitN(strings.TrimSpace(string(out)), "\n", 2)[0] != "unsat"
